@@ -98,3 +98,17 @@ if __name__ == '__main__':
     with ThreadPoolExecutor(max_workers=16) as ex:
         for name, pid, kind, r in ex.map(one, todo):
             print('%-28s %-4s %-6s %s %s' % (name, pid, kind, r.get('exit', r.get('reason')), ' | '.join(r.get('lines', []))[:260]))
+
+
+def matrix(pids, kinds=('twin',), base=SEEDED, jobs=16):
+    """Run every listed check against every variant of the given kinds (cross-detection / false-alarm matrix)."""
+    vs = [v for v in variants(None, base) if v[2].get('kind', 'break') in kinds]
+    todo = [(name, d, meta, pid) for name, d, meta in vs for pid in pids]
+    out = {}
+    def one(t):
+        name, d, meta, pid = t
+        return name, pid, run_variant(pid, os.path.join(d, 'patch.diff'))
+    with ThreadPoolExecutor(max_workers=jobs) as ex:
+        for name, pid, r in ex.map(one, todo):
+            out[(name, pid)] = r
+    return out
